@@ -117,8 +117,15 @@ def generate(rs: int, tier: str, index: int) -> dict:
                                       "floatmode": cnp.choice(["maxprec", "fixed", "unique", "maxprec_equal"])}.items()
                     if cnp.chance(0.5)} or {"linewidth": 30}
     dec_prec = cnp.sub("decimal").choice([6, 3, 12]) if cnp.sub("decimal").chance(0.15) else None  # the thread's decimal context, lowered by earlier code
+    cu = ch.sub("update")
+    update = None
+    if not sympy_case and cu.chance(0.15):
+        cols = [list(col) for col in lit["coefficients"]]
+        update = [col[1:] + col[:1] for col in cols[::-1]] if len(cols) > 1 or (cols and len(cols[0]) > 1) else None
+        if update == cols:
+            update = None
     abort = ch.below(100000) if ch.chance(0.2) else None  # an earlier print of the same array, with other settings, was interrupted part-way
-    step = {"id": 0, "k": "sympy" if sympy_case else "text", "p": lit, "display": display, "other_options": other, "all_orders": ch.chance(0.3), "abort_first": abort, "np_print": np_print, "decimal_prec": dec_prec,
+    step = {"id": 0, "k": "sympy" if sympy_case else "text", "p": lit, "display": display, "other_options": other, "all_orders": ch.chance(0.3), "abort_first": abort, "np_print": np_print, "decimal_prec": dec_prec, "update_after_print": update,
             "reach": ch.weighted([(5, "direct"), (2, "nested"), (2, "set_inside")])}
     pols = POLICIES if tier == "thorough" else ["stable", ch.choice(POLICIES[1:])]
     return {"property": ID, "run_seed": rs, "tier": tier, "prelude": prelude.gen_prelude(core.Chooser(rs, "prelude")), "policies": pols, "steps": [step]}
@@ -322,6 +329,25 @@ class Runner:
         except core.Undecided as exc:
             self.bump(f"undecided:{exc.reason}")
             return
+        if step.get("update_after_print"):
+            # history: the array was printed, then its coefficients were overwritten in place (same terms, same storage);
+            # the text must denote what the array holds now
+            try:
+                fresh = model.build_poly(dict(step["p"], coefficients=step["update_after_print"]))
+            except core.Undecided as exc:
+                self.bump(f"undecided:{exc.reason}")
+                return
+            if list(fresh.keys) == list(p.keys) and fresh.dtype == p.dtype and fresh.shape == p.shape:
+                try:
+                    str(p), repr(p)
+                except Exception:  # noqa: BLE001
+                    pass
+                for key in p.keys:
+                    p.values[key] = fresh.values[key]
+                self.bump("probe:printed_again_after_in_place_update")
+            else:
+                self.bump("undecided:update-changes-terms")
+                return
         names, els = model.elements(p)
         dtype = p.dtype
         interesting = self._interesting(step["p"])
@@ -497,6 +523,8 @@ def simplify(plan: dict):
         yield dict(plan, steps=[dict(step, np_print=None)])
     if step.get("decimal_prec"):
         yield dict(plan, steps=[dict(step, decimal_prec=None)])
+    if step.get("update_after_print"):
+        yield dict(plan, steps=[dict(step, update_after_print=None)])
     if step.get("reach") != "direct":
         yield dict(plan, steps=[dict(step, reach="direct")])
     if step["display"]["display_exponent"] != "**" or step["display"]["display_multiply"] != "*":
